@@ -215,6 +215,12 @@ func (fx *fnExec) step(in ssa.Instruction, st *State, b *ssa.BasicBlock) {
 			return
 		}
 		fail("%s: channel operation not supported", fx.fn)
+	case *ssa.MakeChan:
+		if fx.abstractOK("make chan (fresh channel value)") {
+			st.Regs[in] = fx.freshOf("chan", in.Type(), st)
+			return
+		}
+		fail("%s: channel operation not supported", fx.fn)
 	case *ssa.SliceToArrayPointer:
 		// panics when the slice is shorter than the array; the resulting pointer aliases the slice's
 		// backing store, which this heap model cannot express: under `abstract` the result is a fresh
@@ -668,10 +674,15 @@ func (ex *Exec) strConcat(st *State, x, y Val, rt types.Type) Val {
 		x.T = rt
 		return x
 	}
-	arr := Fresh("cat", StrArr)
-	j := Fresh("qj", BV64)
-	body := Eq(Select(arr, j), Ite(BVSlt(j, la), Select(x.C[0], BVAdd(x.C[1], j)), Select(y.C[0], BVAdd(y.C[1], BVSub(j, la)))))
-	ex.Assume = append(ex.Assume, Forall([]*Term{j}, body, Select(arr, j)))
+	// the concatenation is a function of its operands (two concatenations of the same strings are the
+	// same term), defined pointwise by an axiom added once per application
+	arr := App(DeclUF("$cat", StrArr, StrArr, BV64, BV64, StrArr, BV64, BV64), x.C[0], x.C[1], la, y.C[0], y.C[1], lb)
+	if !ex.embSeen[arr] {
+		ex.embSeen[arr] = true
+		j := Fresh("qj", BV64)
+		body := Eq(Select(arr, j), Ite(BVSlt(j, la), Select(x.C[0], BVAdd(x.C[1], j)), Select(y.C[0], BVAdd(y.C[1], BVSub(j, la)))))
+		ex.Assume = append(ex.Assume, closeOverSpecBound(Forall([]*Term{j}, body, Select(arr, j))))
+	}
 	return Val{T: rt, C: []*Term{arr, BVI(0, 64), BVAdd(la, lb)}}
 }
 
